@@ -13,10 +13,26 @@ META = {
 
 
 def _neutral_doc(prop_name: str = "neutral_name", param_name: str = "neutral_param") -> dict:
-    from ..skeletons import INT, STR, doc, jresp, obj, param, ref
+    from ..skeletons import DATE, INT, STR, doc, jresp, obj, param, ref
 
+    # The candidate sits in the middle of the required properties: a union (its nested `_parse_…(data: object)` helper),
+    # comes before it, a date and a list of models come after it, so that
+    # a name captured by the candidate is still needed by code that runs later, and code that runs earlier can be
+    # broken by the candidate becoming a local of the whole function.
     return doc(
-        {"CaptureModel": obj({prop_name: INT, "other-prop": STR, "a-list": {"type": "array", "items": ref("Leaf")}}, [prop_name]), "Leaf": obj({"leaf-id": INT})},
+        {
+            "CaptureModel": obj(
+                {
+                    "u-first": {"oneOf": [INT, DATE]},
+                    prop_name: INT,
+                    "after-date": DATE,
+                    "other-prop": STR,
+                    "a-list": {"type": "array", "items": ref("Leaf")},
+                },
+                ["u-first", prop_name, "after-date"],
+            ),
+            "Leaf": obj({"leaf-id": INT}),
+        },
         {
             "/cap/{id}": {
                 "post": {
@@ -61,7 +77,7 @@ def candidates() -> dict[str, list[str]]:
         for scope in out:
             out[scope] |= set(keyword.kwlist) | {"self", "cls", "client", "url"}
             # names that are simply the Python names of the document's *other* properties/parameters are C09's subject
-            own = {"other_prop", "a_list", "leaf_id", "id", "x_neutral_param", "c_neutral_param", "neutral_param", "neutral_name"}
+            own = {"other_prop", "a_list", "leaf_id", "id", "x_neutral_param", "c_neutral_param", "neutral_param", "neutral_name", "u_first", "after_date", "opt_null", "nested_m", "an_enum"}
             out[scope] = {n for n in out[scope] if n.isidentifier() and not n.startswith("neutral") and n not in own}
         del builtins
         return {k: sorted(v) for k, v in out.items()}
@@ -69,7 +85,7 @@ def candidates() -> dict[str, list[str]]:
         gen.cleanup(root)
 
 
-def capture_sweep(scope: str, part: int = 0, parts: int = 1, tier: str = "quick", known: list | None = None, timeout: int = 60, **_: object) -> dict:
+def capture_sweep(scope: str, part: int = 0, parts: int = 1, tier: str = "quick", known: list | None = None, timeout: int = 60, par: int = 1, **_: object) -> dict:
     """For each candidate name used as a property (scope=model) / parameter (scope=endpoint) name, regenerate the
     client and run the same document-derived CrossHair oracles (round trip / request) as for a neutral name."""
     from .. import e3, gen, xh
@@ -97,8 +113,8 @@ def capture_sweep(scope: str, part: int = 0, parts: int = 1, tier: str = "quick"
                 try:
                     data, cfg = gen.parse(d)
                     if scope == "model":
-                        src, funcs, meta = e3.model_harness(d, pkg, data, depth_max=1, only=["CaptureModel"])
-                        funcs = [f for f in funcs if f.startswith(("rt_", "tri_"))]
+                        src, funcs, meta = e3.model_harness(d, pkg, data, depth_max=1, list_max=1, str_max=1, only=["CaptureModel"])
+                        funcs = [f for f in funcs if f.startswith(("rt_",) if tier == "quick" else ("rt_", "tri_"))]
                     else:
                         src, funcs, meta = e3.endpoint_harness(d, pkg, data, cfg)
                         funcs = [f for f in funcs if f.startswith("req_")]
@@ -107,11 +123,11 @@ def capture_sweep(scope: str, part: int = 0, parts: int = 1, tier: str = "quick"
                     else:
                         hp = root / f"h_{pkg}.py"
                         hp.write_text(src)
-                        recs = xh.check_file(hp, funcs, timeout, [str(root)], parallel=2)
+                        recs = xh.check_file(hp, funcs, timeout, [str(root)], parallel=par)
                 except Exception as e:
                     problem = f"harness could not be built: {type(e).__name__}: {e}"
             n += 1
-            bad = problem or next((f"{r['func']}: {r['message'][:160]}" for r in recs if r["verdict"] == "counterexample" and r.get("replay", {}).get("reproduced")), None)
+            bad = problem or next((f"{r.get('call') or r['func']}: {str(r.get('replay', {}).get('observed'))[:200]} (CrossHair: {r['message'][:100]})" for r in recs if r["verdict"] == "counterexample" and r.get("replay", {}).get("reproduced")), None)
             nonrep = [r for r in recs if r["verdict"] == "counterexample" and not r.get("replay", {}).get("reproduced")]
             errs_h = [r for r in recs if r["verdict"] == "error"]
             if errs_h and not bad:
@@ -154,8 +170,8 @@ def capture_sweep_single(scope: str, name: str) -> dict:
 def obligations(tier: str) -> list[Ob]:
     q = tier == "quick"
     obs = []
-    parts = 8
+    parts = 16
     for scope in ("model", "endpoint"):
         for part in range(parts):
-            obs.append(Ob(f"capture[{scope},{part}/{parts}]", "vlib.props.C18:capture_sweep", {"scope": scope, "part": part, "parts": parts, "known_key": "capture", "timeout": 60 if q else 240}, timeout_s=1500 if q else 5000, engine="E3", cpus=2))
+            obs.append(Ob(f"capture[{scope},{part}/{parts}]", "vlib.props.C18:capture_sweep", {"scope": scope, "part": part, "parts": parts, "known_key": "capture", "timeout": 60 if q else 240, "par": 1 if q else 2}, timeout_s=1500 if q else 5000, engine="E3", cpus=1 if q else 2))
     return obs
